@@ -133,7 +133,7 @@ FIXED_OPS = [
     ("idx", 0), ("idx", 1), ("idx_rel", -1), ("idx_rel", 0), ("idx_rel", 2),
     ("neg", 1), ("neg", 2),
     ("slice", 1, None, None), ("slice", None, -1, None), ("slice", 0, 2, None),
-    ("slice", None, None, 2), ("slice", 1, None, 2),
+    ("slice", None, None, 2), ("slice", 1, None, 2), ("slice", 0, 3, 2), ("slice", 1, 4, 2),
     ("len",), ("iter",), ("partial", 1), ("partial", 2), ("bool",),
     ("in", 1), ("in", 7), ("eq_list", "same"), ("eq_list", "longer"), ("eq_list", "prefix"), ("eq_lazy", "same"), ("eq_lazy", "front"),
     ("eq_lazy", "prefix"), ("eq_list", "empty"),
